@@ -290,7 +290,7 @@ func controlConds(b *ssa.BasicBlock) []ssa.Value {
 		}
 		s0 := branchLeadsTo(d, 0, b)
 		s1 := branchLeadsTo(d, 1, b)
-		if s0 != s1 {
+		if s0 != s1 && !(inCycle(d) && !reachesBlock(b, d)) {
 			out = append(out, ifi.Cond)
 		}
 	}
